@@ -303,6 +303,9 @@ func checkC19(run *mon.Run, rng *mon.Rand, thorough bool) {
 		r := rng.Split()
 		w := &c19World{run: run, rng: r, env: newL1Env(0, nil), metadata: map[uint64][]byte{}, feat: map[string]int{}}
 		w.env.L1.Speculate = r.Bool()
+		if r.Bool() {
+			w.env.EnableShadow(r.U64())
+		}
 		for i := 0; i < 5; i++ {
 			w.channels = append(w.channels, ophosthook.PortChannelID{PortID: "transfer", ChannelID: fmt.Sprintf("channel-%d", i)})
 		}
